@@ -276,7 +276,15 @@ pub struct Parser<'a> {
     /// function/name completion even when the surrounding parse succeeds (`SU`,
     /// `A1+F`) or fails for an unrelated reason (`IF(VLOOK`). See that method.
     trailing_name: Option<(String, usize)>,
+    /// Current nesting depth of `parse_expr` (parentheses, function arguments,
+    /// array elements). The parser is recursive: without a limit a formula like
+    /// `((((...1...))))` with a few thousand levels overflows the stack.
+    depth: usize,
 }
+
+/// Maximum nesting of expressions the parser accepts (Excel allows 64 levels of
+/// nested functions).
+const MAX_EXPRESSION_DEPTH: usize = 128;
 
 pub fn new_parser_english<'a>(
     worksheets: Vec<String>,
@@ -312,6 +320,7 @@ impl<'a> Parser<'a> {
             language,
             expecting_here: vec![ExpectedTokens::Other],
             trailing_name: None,
+            depth: 0,
         }
     }
     pub fn set_lexer_mode(&mut self, mode: lexer::LexerMode) {
@@ -343,6 +352,7 @@ impl<'a> Parser<'a> {
         // At the top level a formula may start with an expression or a range.
         self.expecting_here = vec![ExpectedTokens::Range, ExpectedTokens::Other];
         self.trailing_name = None;
+        self.depth = 0;
         self.parse_expr()
     }
 
@@ -441,6 +451,21 @@ impl<'a> Parser<'a> {
     }
 
     fn parse_expr(&mut self) -> Node {
+        if self.depth >= MAX_EXPRESSION_DEPTH {
+            return Node::ParseErrorKind {
+                formula: self.lexer.get_formula(),
+                expecting: vec![ExpectedTokens::Other],
+                position: self.lexer.get_position() as usize,
+                message: "The formula is nested too deeply".to_string(),
+            };
+        }
+        self.depth += 1;
+        let t = self.parse_expr_inner();
+        self.depth -= 1;
+        t
+    }
+
+    fn parse_expr_inner(&mut self) -> Node {
         let mut t = self.parse_concat();
         if let Node::ParseErrorKind { .. } = t {
             return t;
